@@ -708,6 +708,7 @@ type vfSubReport struct {
 	Note        string          `json:"note,omitempty"`
 	WallS       float64         `json:"wall_s"`
 	Short       bool            `json:"short"` // rapid ran fewer cases than requested
+	NTCount     int             `json:"nontrivial_count"` // bulk sub-checks: counted, not hashed
 	ntSet       map[string]bool `json:"-"`
 	sampleLens  []int
 }
@@ -1066,5 +1067,34 @@ func vfEnumerate[S any](t *testing.T, prop, sub string, total int, get func(i in
 			sr.Violations = append(sr.Violations, vfViolation{Sub: sub, Sig: c.Sig, Msg: c.Verdict, Replay: p})
 			return
 		}
+	}
+}
+
+// vfBulk runs a sub-check that iterates a (large) space internally and reports counts.
+// fn returns (evaluations, distinct non-trivial, exhaustive, sample, failure case or nil).
+func vfBulk(t *testing.T, prop, sub string, fn func(sr *vfSubReport) *vfCase) {
+	t.Helper()
+	vfStartWatchdog()
+	if vfEnv.Replay != "" {
+		return
+	}
+	rep := vfGetReport(prop)
+	sr := &vfSubReport{Name: sub, Classes: map[string]int{}, KnownHits: map[string]int{}, ntSet: map[string]bool{}}
+	vfRepMu.Lock()
+	rep.Subs = append(rep.Subs, sr)
+	vfRepMu.Unlock()
+	defer vfFlushReport()
+	st := time.Now()
+	c := fn(sr)
+	sr.WallS = time.Since(st).Seconds()
+	sr.Requested = sr.Evaluations
+	if c != nil && c.Verdict != "" {
+		if k := vfKnownMatch(prop, c.Sig); k != nil {
+			sr.KnownHits[k.ID]++
+			return
+		}
+		js := vfCanon(map[string]string{"bulk": sub, "failure": c.Verdict})
+		p := vfWriteReplay(prop, sub, js, c)
+		sr.Violations = append(sr.Violations, vfViolation{Sub: sub, Sig: c.Sig, Msg: c.Verdict, Replay: p})
 	}
 }
